@@ -374,6 +374,22 @@ def main(argv=None):
         cov["distinct_nontrivial"] = int(rep.get("distinct_nontrivial") or 0)
         cov["rule"] = rep.get("rule") or ""
         cov["samples"] = (P["samples"] + rep.get("samples", [])[:4]) or ["(none)"]
+    try:
+        assumed = {}
+        for j in (mod.jobs(args.tier) if not args.only_bounded else []):
+            c = j.contract
+            ent = {}
+            if c.requires:
+                ent["requires (assumed of the callers unless a [uses] contract of the call site proves them)"] = list(c.requires)[:40]
+            if getattr(c, "call_facts", None):
+                ent["assumed contracts of callees (call_facts)"] = {k: v.get("ensures", []) for k, v in c.call_facts.items()}
+            if getattr(c, "rtc_ensures", None):
+                ent["clauses checked at run time only (bounded)"] = list(c.rtc_ensures)
+            if ent:
+                assumed[j.tag] = ent
+        cov["assumed_contracts"] = assumed
+    except Exception as e:      # evidence only
+        cov["assumed_contracts"] = {"error": str(e)}
     if rtc_res:
         cov["runtime_contract_check"] = {
             "label": "bounded (run-time evaluation of the proved contracts on the rebuilt kernels; never counted as proved)",
